@@ -42,12 +42,12 @@ Lemma frame_hist_opb_sound cands g o : frame_hist_opb cands g o = true -> frame_
 Proof. unfold frame_hist_opb, frame_hist_op. intros E. apply andb_true_iff in E. destruct E as (E1 & E2). split.
   - destruct o; simpl in *; auto. apply existsb_exists in E1. destruct E1 as (sh & _ & E1).
     apply andb_true_iff in E1. destruct E1 as (A & B). exists sh. split; lia.
-  - destruct o as [n| | |b|i k|i k]; simpl in *; auto. intros r Hr Hm. rewrite Hr, Hm in E2.
+  - destruct o as [n| | |b|i|i k]; simpl in *; auto. intros r Hr Hm. rewrite Hr, Hm in E2.
     apply orb_true_iff in E2. destruct E2 as [E2|E2]; [left; lia|right].
     apply existsb_exists in E2. destruct E2 as (x & Hx & E2). apply Z.eqb_eq in E2. subst x. exact Hx. Qed.
 
 Lemma al_opb_sound g o : al_opb g o = true -> al_op g o.
-Proof. destruct o as [n| | |b|i k|i k]; simpl; auto.
+Proof. destruct o as [n| | |b|i|i k]; simpl; auto.
   - intros E. apply Z.mod_divide; lia.
   - intros E. apply orb_true_iff in E. destruct E as [E|E]; [left; apply Z.mod_divide; lia|right].
     intros r Hr Hm. rewrite Hr, Hm in E. lia. Qed.
@@ -112,6 +112,31 @@ Theorem sink_count_stays_whole c ops1 ops2 g1 g2 i k r :
   whole_unmap g1 (OReadUnmap i k) -> whole_unmap g2 (OReadUnmap i k).
 Proof. intros Hc E1 E2 Nb Hn Hm Wh.
   exact (whole_unmap_stable ops2 g1 g2 i k r (reachable_inv c ops1 g1 Hc E1) E2 Nb Hn Hm Wh). Qed.
+
+(* the packet mapped in g1 is still in the ring, header by header, in any later state g2 reached while reader i
+   keeps its slice mapped (the writer commits more frames, other readers come and go) *)
+Theorem packet_stays_whole c ops1 ops2 g1 g2 i r fs base :
+  0 < c -> grun (ginit c) ops1 = Some g1 -> hist_ok frame_hist_op (ginit c) ops1 ->
+  grun g1 ops2 = Some g2 -> hist_ok frame_hist_op g1 ops2 -> Forall (not_by i) ops2 ->
+  nth_error (rds (cs g1)) i = Some r -> rmapped r = true ->
+  chain (bounds g1) (idx g1 r) fs -> total fs = avail r (high (cs g1)) ->
+  holds_packet (hdr_mem g2 base) (base + hpos r) fs /\
+  exists r', nth_error (rds (cs g2)) i = Some r' /\ rmapped r' = true /\ hpos r' = hpos r /\
+    avail r' (high (cs g2)) = avail r (high (cs g1)).
+Proof.
+  intros Hc E1 H1 E2 H2 Nb Hn Hm C T.
+  destruct (reachable_fb c ops1 g1 Hc E1 H1) as (I1 & F1).
+  destruct (fb_run is_frame_size is_frame_size_pos ops2 g1 g2 I1 F1 E2 (hist_frame_fb ops2 g1 H2)) as (I2 & F2).
+  destruct (slice_stable ops2 g1 g2 i r I1 E2 Nb Hn Hm) as (r' & N' & M' & P' & A' & Cs).
+  assert (Hin : In r (rds (cs g1))) by (eapply nth_error_In; eauto).
+  destruct (slice_committed g1 r I1 Hin Hm) as (_ & _ & S3).
+  destruct (bounds_run_ext ops2 g1 g2 E2) as (l & Hl).
+  split; [|exists r'; auto].
+  apply (holds_chain g2 base fs (idx g1 r) (hpos r)).
+  - apply (fb_sd _ _ F2).
+  - rewrite Hl. apply chain_front. exact C.
+  - intros j Hj. rewrite Cs by lia. apply S3. lia.
+Qed.
 
 (* every reader's cursor and every mapped slice's end are write boundaries, in every reachable state *)
 Theorem holds_on_frame_boundaries c ops g j r :
